@@ -44,6 +44,9 @@ HOLE = {
     "start": r"(s\[\d+\]|\d+)",
     "pass": r"(True|False|presorted)",
     "str": r"(?:'(?:[^'\\\n]|\\.)*'|\"(?:[^\"\\\n]|\\.)*\")",
+    "ix": r"([a-z0-9_\[\]]+)",
+    "var": r"(sub1|sub2)",
+    "kix": r"(i|s\[i\])",
 }
 
 _M_HEAD = """\
@@ -76,12 +79,12 @@ if is_string {clamp_conn:conn} arr2.max() {clamp_op:cmp} arr1.max():
     bad, = np.where(sub1 {bad_op:cmp} arr1.size)
     sub1[bad] = arr1.size - {clamp_minus:int}
 if {filter_if_not:not}presorted:
-    sub2, = np.where(arr1[st1[sub1]] {eq_sorted:cmp} arr2)
-    sub1 = st1[sub1[sub2]]
+    sub2, = np.where(arr1[{f_sorted:ix}] {eq_sorted:cmp} arr2)
+    sub1 = {r_sorted:ix}
 else:
-    sub2, = np.where(arr1[sub1] {eq_presorted:cmp} arr2)
-    sub1 = sub1[sub2]
-return (sub1, sub2)
+    sub2, = np.where(arr1[{f_presorted:ix}] {eq_presorted:cmp} arr2)
+    sub1 = {r_presorted:ix}
+return ({ret1:var}, {ret2:var})
 """
 # the ORDER of the two leading blocks is read from the source (mp_el_first): both orders are recognised
 T_MATCH = _M_HEAD + _M_EL + _M_EMPTY + _M_REST
@@ -135,13 +138,13 @@ for i in range({range_lo:int}, n):
         val = sarr[i]
         f = sflag[i]
         nkeep += {nkeep_step:int}
-        keep[nkeep] = i
+        keep[nkeep] = {keep_new:kix}
     elif sflag[i] {flag_op:cmp} f:
         f = sflag[i]
-        keep[nkeep] = i
+        keep[nkeep] = {keep_upd:kix}
 keep = keep[{slice_lo:int}:nkeep + {slice_plus:int}]
 s = s[keep]
-s.sort()
+?s.sort()
 if {values_if_not:not}values:
     return (s, arr[s])
 else:
@@ -204,6 +207,8 @@ def _match_one(name, template, lines):
             t = t[1:]
         rx, names = _compile(t)
         m = rx.fullmatch(lines[i]) if i < len(lines) else None
+        if optional:
+            got["?" + t.strip()] = m is not None
         if m is None:
             if optional:
                 continue
@@ -246,6 +251,30 @@ def _rebound(tree):
         raise TranslateError("numpy is not imported as np")
 
 
+def _ix(fn, txt):
+    """index expression over st1 / sub1 / sub2 with x[y] -> Skel.ix term"""
+    pos = [0]
+
+    def parse():
+        m = re.match(r"[a-z0-9_]+", txt[pos[0]:])
+        if not m or m.group(0) not in ("st1", "sub1", "sub2"):
+            raise TranslateError("%s: index expression `%s` is outside (st1, sub1, sub2, x[y])" % (fn, txt))
+        pos[0] += m.end()
+        e = {"st1": "XSt1", "sub1": "XSub1", "sub2": "XSub2"}[m.group(0)]
+        while pos[0] < len(txt) and txt[pos[0]] == "[":
+            pos[0] += 1
+            inner = parse()
+            if pos[0] >= len(txt) or txt[pos[0]] != "]":
+                raise TranslateError("%s: index expression `%s` does not parse" % (fn, txt))
+            pos[0] += 1
+            e = "XAt (%s) (%s)" % (e, inner)
+        return e
+    e = parse()
+    if pos[0] != len(txt):
+        raise TranslateError("%s: index expression `%s` does not parse" % (fn, txt))
+    return e
+
+
 def _start(txt):
     m = re.fullmatch(r"s\[(\d+)\]", txt)
     return ("UViaSort", int(m.group(1))) if m else ("UDirect", int(txt))
@@ -279,6 +308,9 @@ def extract(src):
         ("mp_filter_if_not", _b(nt(m["filter_if_not"]))),
         ("mp_eq_sorted", CMP[m["eq_sorted"]]), ("mp_eq_presorted", CMP[m["eq_presorted"]]),
         ("mp_el_first", _b(b(m["el_first"]))),
+        ("mp_f_sorted", _ix("match", m["f_sorted"])), ("mp_r_sorted", _ix("match", m["r_sorted"])),
+        ("mp_f_presorted", _ix("match", m["f_presorted"])), ("mp_r_presorted", _ix("match", m["r_presorted"])),
+        ("mp_ret_swap", _ret_swap(m["ret1"], m["ret2"])),
     ]
     p["match_multi"] = [
         ("mm_presorted_default", _b(b(mm["presorted_default"]))),
@@ -302,12 +334,22 @@ def extract(src):
         ("rp_ne_op", CMP[r["ne_op"]]), ("rp_flag_op", CMP[r["flag_op"]]), ("rp_nkeep_step", r["nkeep_step"]),
         ("rp_slice_lo", r["slice_lo"]), ("rp_slice_plus", r["slice_plus"]),
         ("rp_values_if_not", _b(nt(r["values_if_not"]))),
+        ("rp_keep_new_via_s", _b(r["keep_new"] != "i")), ("rp_keep_upd_via_s", _b(r["keep_upd"] != "i")),
+        ("rp_sort_result", _b(r["?s.sort()"])),
     ]
     for k in p:
         for nm, v in p[k]:
             if re.fullmatch(r"\d+", v) and int(v) > 1000:
                 raise TranslateError("%s: constant %s = %s is outside the modelled range" % (k, nm, v))
     return p
+
+
+def _ret_swap(r1, r2):
+    if (r1, r2) == ("sub1", "sub2"):
+        return "false"
+    if (r1, r2) == ("sub2", "sub1"):
+        return "true"
+    raise TranslateError("match: returns (%s, %s)" % (r1, r2))
 
 
 def _b(x):
@@ -347,7 +389,9 @@ REFERENCE = {
               ("mp_empty_k2", "0"), ("mp_empty_err", "EValue"), ("mp_uniq_op", "CNe"), ("mp_uniq_err", "EValue"),
               ("mp_sort_if_not", "true"), ("mp_side", "SLeft"), ("mp_clamp_conn", "COr"), ("mp_clamp_op", "CGt"),
               ("mp_bad_op", "CEq"), ("mp_clamp_minus", "1"), ("mp_filter_if_not", "true"),
-              ("mp_eq_sorted", "CEq"), ("mp_eq_presorted", "CEq"), ("mp_el_first", "true")],
+              ("mp_eq_sorted", "CEq"), ("mp_eq_presorted", "CEq"), ("mp_el_first", "true"),
+              ("mp_f_sorted", "XAt (XSt1) (XSub1)"), ("mp_r_sorted", "XAt (XSt1) (XAt (XSub1) (XSub2))"),
+              ("mp_f_presorted", "XSub1"), ("mp_r_presorted", "XAt (XSub1) (XSub2)"), ("mp_ret_swap", "false")],
     "match_multi": [("mm_presorted_default", "false"), ("mm_pass", "PassConst false")],
     "unique": [("up_values_default", "false"), ("up_val_start", "UViaSort 0"), ("up_keep0_pos", "0"),
                ("up_keep0_start", "UViaSort 0"), ("up_i0", "1"), ("up_nkeep0", "0"), ("up_while_op", "CLt"),
@@ -356,7 +400,8 @@ REFERENCE = {
     "rem_dup": [("rp_values_default", "false"), ("rp_single_op", "CEq"), ("rp_single_k", "1"),
                 ("rp_single_if_not", "false"), ("rp_single_ret_v", "0"), ("rp_single_ret", "0"), ("rp_nkeep0", "0"),
                 ("rp_val0", "0"), ("rp_f0", "0"), ("rp_range_lo", "1"), ("rp_ne_op", "CNe"), ("rp_flag_op", "CGt"),
-                ("rp_nkeep_step", "1"), ("rp_slice_lo", "0"), ("rp_slice_plus", "1"), ("rp_values_if_not", "false")],
+                ("rp_nkeep_step", "1"), ("rp_slice_lo", "0"), ("rp_slice_plus", "1"), ("rp_values_if_not", "false"),
+                ("rp_keep_new_via_s", "false"), ("rp_keep_upd_via_s", "false"), ("rp_sort_result", "true")],
 }
 
 
